@@ -48,6 +48,25 @@ def axis_calls():
             yield sig, args, kw
 
 
+# parameter names that the library itself uses for its own parameters (`getcallargs(function, ...)`, `wrapper.__call__(self, ...)`,
+# `wrapped(self, ...)`, `cache_func._key(self, ...)`, the wrapper parameters `cache`, `value`, `types`, `exc`, ...): "any function f"
+# includes functions whose parameters carry these names, and a valid call may pass them by keyword
+RESERVED = ['self', 'function', 'args', 'kwargs', 'cache', 'value', 'types', 'exc', 'callargs', 'key', 'repeat']
+
+
+def reserved_sigs():
+    for nm in RESERVED:
+        yield ([nm, 'b'], [DEFAULTS[0]], None, None)
+        yield ([nm], [], None, 'kw')
+        yield (['a', nm], [DEFAULTS[1]], 'va', None)
+
+
+def reserved_calls():
+    for sig in reserved_sigs():
+        for args, kw in valid_calls(sig):
+            yield sig, args, kw
+
+
 def sig_enc(sig):
     params, defaults, va, vk = sig
     return '(T %s %s %s %s)' % (enc(list(params)), enc(list(defaults)), enc(va), enc(vk))
@@ -407,7 +426,16 @@ def generate(rng, tier):
             ds = [(c, deco_params(rng, c))] + ([(c2, deco_params(rng, c2)) for c2 in rng.sample(CLASSES, 1)] if rng.random() < 0.5 else [])
             yield dict(tag='stack len=%d parameter-called-axis' % len(ds),
                        lines=['(deco stack %s %s %s %s)' % (sig_enc(sig), decos_enc(ds), enc(list(args)), enc(dict(kw)))])
+    nres = 0
+    for sig, args, kw in reserved_calls():
+        nres += 1
+        yield dict(tag='valid call parameter named like a library parameter (%s)' % [p for p in sig[0] if p in RESERVED][0], lines=call_lines(sig, args, kw))
+        for c in CLASSES:
+            ds = [(c, deco_params(rng, c))] + ([(c2, deco_params(rng, c2)) for c2 in rng.sample(CLASSES, 1)] if rng.random() < 0.3 else [])
+            yield dict(tag='stack len=%d parameter named like a library parameter' % len(ds),
+                       lines=['(deco stack %s %s %s %s)' % (sig_enc(sig), decos_enc(ds), enc(list(args)), enc(dict(kw)))])
     EXTRA['enumerated_valid_calls'] = len(allcalls)
+    EXTRA['valid_calls_with_reserved_parameter_names'] = nres
     EXTRA['signatures'] = len(sigs)
     # every stack of <= 3 decorators on a few calls each (valid, raising, invalid)
     per_stack = 3 if q else 30
@@ -647,7 +675,8 @@ def laws(rng, tier, ctx):
     sigs = list(all_sigs())
     allcalls = [(sig, a, k) for sig in sigs for a, k in valid_calls(sig)]
     # (1) getcallargs == inspect.getcallargs and call_with_callargs round trip, on every enumerated valid call
-    for sig, args, kw in allcalls:
+    rescalls = list(reserved_calls())
+    for sig, args, kw in allcalls + rescalls:
         f = make_fn(sig)
         count += 2
         exp = inspect.getcallargs(f, *args, **kw)
@@ -663,7 +692,7 @@ def laws(rng, tier, ctx):
                           'call_with_callargs(f, getcallargs(f, ...)) gives %r, f(...) gives %r' % (rt, direct))
     # (2) transparency of every single decorator and of random stacks on every enumerated valid call; spec forwarded
     stacks = [[(c, deco_params(rng, c))] for c in CLASSES]
-    for sig, args, kw in allcalls + list(axis_calls()):
+    for sig, args, kw in allcalls + list(axis_calls()) + rescalls:
         f = make_fn(sig)
         direct = f(*args, **kw)
         for ds in stacks + [[(c, deco_params(rng, c)) for c in rng.sample(CLASSES, rng.choice([2, 3]))]]:
